@@ -17,10 +17,47 @@ PROPS = {
     },
 }
 
+KV_T1 = [
+    {"family": "kv", "model": "kv", "quick_n": 40000, "thorough_n": 1500000, "corpus": "kv"},
+    {"family": "kv", "model": "kv", "profile": "iavl", "quick_n": 15000, "thorough_n": 500000, "corpus": "kv"},
+]
+KV_RULE = ("programs over stacks of real wrappers (cachekv / prefix / gaskv / tracekv, depth <= 7) on a MemDB or IAVL base; keys over "
+           "{00,01,ff}^<=3 (+ random bytes) so that keys are prefixes of each other; iterators opened, stepped, written under and resumed; "
+           "gas limits from tiny to 2^64-5000 (overflow); a case is non-trivial when it is a distinct (op, stack shape, outcome) "
+           "triple on a non-setup op; the overlay oracle in the harness re-derives every read/iteration/flush from simple maps")
+PROPS["C16"] = {
+    "lean_modules": ["Posmint.Props.C16"],
+    "namespaces": ["Posmint.Props.C16"],
+    "required_theorems": ["Posmint.Props.C16.prefixEnd_spec", "Posmint.Props.C16.gas_exact", "Posmint.Props.C16.out_of_gas_exact",
+                          "Posmint.Props.C16.trace_exact_get", "Posmint.Props.C16.prefix_isolation_set", "Posmint.Props.C16.consume_spec"],
+    "t1": KV_T1,
+    "rule": KV_RULE,
+    "assumptions": ["values shorter than 2^58 bytes (per-byte gas products do not overflow uint64)",
+                    "iterators through gas/trace layers are modelled when no cache layer sits above a gas/trace layer (the realistic stacking); "
+                    "point operations and Write are modelled for every stacking",
+                    "Has is delegated without a trace record (the trace format defines five operation kinds)"],
+    "trusted": ["tm-db MemDB / tendermint iavl as the base store (behaves like a sorted map; exercised by T1 on both)"],
+}
+
+# development-only entry: the chain family with all monitors, no Lean module (not in MANIFEST)
+PROPS["XCHAIN"] = {
+    "lean_modules": [], "namespaces": [],
+    "t1": [{"family": "chain", "model": None, "quick_n": 4000, "thorough_n": 200000}],
+}
+
 # Properties not claimed, with the reason (kept current; see DESIGN.md).
 NOT_APPLICABLE = {}
 
 MANIFEST_TEXT = {
+    "C16": {
+        "text": "Lean theorems over the wrapper model: [p, PrefixEndBytes p) is exactly the keys with prefix p (incl. trailing 0xFF / all-0xFF); "
+                "prefix view, isolation of set/delete and iteration; ConsumeGas = exact sum with out-of-gas exactly at the crossing charge and overflow "
+                "reported not wrapped; gas store transparent and gas of any op sequence = sum of the documented costs; iterator gas per step; "
+                "trace store transparent with exactly one record per Get/Set/Delete/iterKey/iterValue in order. Tied to store/{prefix,gaskv,tracekv,types} "
+                "by differential runs of generated programs on the real wrappers (MemDB and IAVL base).",
+        "note": "Lean kernel + 3 standard axioms; hand-written model tied by T1; the KV gas table is regenerated from store/types/gas.go (T2)",
+        "technique": "Lean 4 proof over executable model + differential correspondence",
+    },
     "C18": {
         "text": "Lean theorems: Int/Uint Add/Sub/Mul equal exact arithmetic or panic exactly when out of range (incl. Mul's "
                 "pre-check being neither too strict nor too lax); chopPrecisionAndRound is the unique half-to-even rounding for "
